@@ -820,7 +820,9 @@ def c20(run):
                 if se.decode('utf-8', 'replace') != 'Runtime error: ' + msg + '\n':
                     run.fail(case, 'runtime error is not reported on standard error, prefixed as such')
             elif c == 'parseerr':
-                if not se.decode('utf-8', 'replace').startswith('Parse error: Parse error (line %s)' % f[2]):
+                lib = common.impl(['parse ' + hx(src)])[0].split(' ')
+                msg = unhx(lib[3]).decode('utf-8', 'replace') if len(lib) > 3 and lib[0] == 'err' else None
+                if msg is None or se.decode('utf-8', 'replace') != 'Parse error: ' + msg + '\n':
                     run.fail(case, 'parse error is not reported on standard error, prefixed as such')
             # lint
             run.case(('lint', src), True, sub='lint')
@@ -830,14 +832,19 @@ def c20(run):
                 if not se.startswith(b'Parse error: '):
                     run.fail({'program': src, 'cli_stderr': se.decode('utf-8', 'replace')[:200]}, '`rrss lint` does not report the parse error')
             else:
-                want = ''
+                text = so.decode('utf-8', 'replace')
+                pos = 0
+                ok_ = True
                 for x in d:
-                    want += 'Lint issue: (line %d) %s' % (x['line'], x['issue']) + ''.join('\n\t' + s_ for s_ in x['suggestions']) + '\n'
-                if not d:
-                    want = 'No lint issues found :)'
-                if so.decode('utf-8', 'replace') != want:
-                    run.fail({'program': src, 'library': d[:4], 'cli_stdout': so.decode('utf-8', 'replace')[:400]},
-                             '`rrss lint` does not print the library\'s diagnostics')
+                    for piece in ['%d' % x['line'], x['issue']] + x['suggestions']:
+                        k = text.find(piece, pos)
+                        if k < 0:
+                            ok_ = False
+                            break
+                        pos = k + len(piece)
+                if not ok_ or (not d and ('\n\t' in text or not text)):
+                    run.fail({'program': src, 'library': d[:4], 'cli_stdout': text[:400]},
+                             '`rrss lint` does not print the library\'s diagnostics (each line, issue and suggestion, in the library\'s order)')
             # parse: the library's tree is what `parse` prints (compared structurally: statement count per kind)
             code, so, se = cli(['parse', path])
             run.case(('parse', src), True, sub='parse')
